@@ -302,7 +302,10 @@ def run_track(case, ctx) -> None:
                 ctx.violation(f"{key}:tracked-gradient-differs-from-untracked:gradient-missing", "a gradient exists on one side only", source=src)
                 return
             if a is not None and not bits_equal(a, b):
-                rel = float((a - b).abs().max()) / max(float(b.abs().max()), 1e-30)
+                # relative to the LARGEST gradient of the run: a gradient that is mathematically zero (a key bias under softmax)
+                # consists of rounding noise only, and noise differs by 100% of itself
+                gmax_all = max([float(x_.abs().max()) for x_ in go if x_ is not None and x_.numel()] + [1e-30])
+                rel = float((a - b).abs().max()) / max(float(b.abs().max()), gmax_all)
                 if rel <= 1e-6:
                     # rounding-level difference: attribute it to the accumulation order of >= 3 gradient contributions, if the
                     # program has such a tensor (float addition is not associative); anything else keeps its own key
